@@ -327,9 +327,16 @@ def orthogonal(rep, pid, tier):
     dwtlib.f64()
     rng = np.random.default_rng(67000 + seed())
     n = 0
-    for name, shape, J in (("db4", (2, 2, 4096), 5), ("sym5", (1, 2, 256, 192), 3), ("haar", (1, 3, 1024), 7), ("db2", (2, 1, 160, 416), 4), ("coif2", (1, 1, 3072), 3)):
-        fw = (pw.DWT1DForward if len(shape) == 3 else pw.DWTForward)(J=J, wave=name, mode="periodization")
-        iv = (pw.DWT1DInverse if len(shape) == 3 else pw.DWTInverse)(wave=name, mode="periodization")
+    import pywt
+    for name, shape, J in (("db4", (2, 2, 4096), 5), ("sym5", (1, 2, 256, 192), 3), ("haar", (1, 3, 1024), 7), ("db2", (2, 1, 160, 416), 4), ("coif2", (1, 1, 3072), 3),
+                           ("db2|db3", (1, 2, 96, 64), 2), ("sym4|haar", (2, 1, 64, 160), 3)):
+        if "|" in name:          # one orthogonal wavelet per axis (the 4-tuple form): still an orthogonal change of basis
+            a_, b_ = (pywt.Wavelet(w_) for w_ in name.split("|"))
+            fw = pw.DWTForward(J=J, wave=(a_.dec_lo, a_.dec_hi, b_.dec_lo, b_.dec_hi), mode="periodization")
+            iv = pw.DWTInverse(wave=(a_.rec_lo, a_.rec_hi, b_.rec_lo, b_.rec_hi), mode="periodization")
+        else:
+            fw = (pw.DWT1DForward if len(shape) == 3 else pw.DWTForward)(J=J, wave=name, mode="periodization")
+            iv = (pw.DWT1DInverse if len(shape) == 3 else pw.DWTInverse)(wave=name, mode="periodization")
         x = torch.tensor(rng.standard_normal(shape), requires_grad=True)
         y = torch.tensor(rng.standard_normal(shape))
         yl, yh = fw(x)
@@ -347,6 +354,14 @@ def orthogonal(rep, pid, tier):
         back = iv((gs[0], gs[1:]))
         rec = iv((yl.detach(), [h.detach() for h in yh]))
         bad = []
+        # the same transform without a graph being recorded (inference): same coefficients, and they reconstruct
+        with torch.no_grad():
+            nl, nh = fw(x.detach())
+            nrec = iv((nl, nh))
+        if not all(float((p_ - q_.detach()).abs().max()) <= 1e-12 * (float(q_.detach().abs().max()) + 1e-300) for p_, q_ in zip([nl] + list(nh), [yl] + list(yh))):
+            bad.append("coefficients under torch.no_grad() differ from those with a graph recorded")
+        if not float((nrec - x.detach()).abs().max()) <= 1e-10 * float(x.detach().abs().max()):
+            bad.append("under torch.no_grad(): inverse(forward(x)) differs from x by %.3g" % float((nrec - x.detach()).abs().max()))
         if not abs(e_in - e_out) <= 1e-11 * e_in:
             bad.append("energy %.15g -> %.15g" % (e_in, e_out))
         if not abs(ip_in - ip_out) <= 1e-11 * (e_in + float((y ** 2).sum())):
